@@ -155,6 +155,35 @@ class Verbosity:
         return False
 
 
+READ_BACK = ('from_start', 'at_offset', 'forward_only', 'no_includes')
+
+
+class _ForwardOnly(io.RawIOBase):
+    """what a pipe or a socket is: readable, not seekable"""
+
+    def __init__(self, data):
+        self._d = data
+        self._i = 0
+
+    def readable(self):
+        return True
+
+    def seekable(self):
+        return False
+
+    def seek(self, *a):
+        raise io.UnsupportedOperation('seek')
+
+    def tell(self):
+        raise io.UnsupportedOperation('tell')
+
+    def readinto(self, b):
+        n = min(len(b), len(self._d) - self._i, 4096)
+        b[:n] = self._d[self._i:self._i + n]
+        self._i += n
+        return n
+
+
 def one_cart(ctx, rng, workdir):
     verbosity = rng.choice(('normal', 'normal', 'quiet', 'debug', 'debug'))
     ctx.feature('verbosity_' + verbosity)
@@ -245,7 +274,26 @@ def _one_cart(ctx, rng, workdir, verbosity):
             buf = io.BytesIO()
             P8Formatter.to_file(g, buf)
             data1 = buf.getvalue()
-            g2 = P8Formatter.from_file(io.BytesIO(data1))
+            # the stream the cart is read back from: from its start, from the position the cart was written at behind other data,
+            # a forward-only stream (a pipe), and with the include pass switched off (the code has no directives)
+            how = READ_BACK[case.setdefault('read_back', rng.randrange(len(READ_BACK)))]
+            ctx.feature('read_back:' + how)
+            if how == 'at_offset':
+                prefix = b'#!shebang or container header\n\x00\x89PNG\r\n' * rng.randint(1, 3)
+                st = io.BytesIO()
+                st.write(prefix)
+                P8Formatter.to_file(g, st)
+                if st.getvalue()[len(prefix):] != data1:
+                    ctx.violation('the bytes written behind other data in a stream differ from those written to an empty one', case)
+                    return
+                st.seek(len(prefix))
+                g2 = P8Formatter.from_file(st)
+            elif how == 'forward_only':
+                g2 = P8Formatter.from_file(io.BufferedReader(_ForwardOnly(data1)))
+            elif how == 'no_includes':
+                g2 = P8Formatter.from_file(io.BytesIO(data1), do_includes=False)
+            else:
+                g2 = P8Formatter.from_file(io.BytesIO(data1))
             buf2 = io.BytesIO()
             P8Formatter.to_file(g2, buf2)
             data2 = buf2.getvalue()
@@ -354,6 +402,9 @@ def gates(m, tier):
               'code_object_of_another_version', 'version0_cart_with_foreign_code_object'):
         if f.get(k, 0) < 10:
             missed.append('%s seen %d times' % (k, f.get(k, 0)))
+    for how in READ_BACK:
+        if f.get('read_back:' + how, 0) < 5:
+            missed.append('read_back:%s seen %d times' % (how, f.get('read_back:' + how, 0)))
     names = [k for k in f if k.startswith('file_name:')]
     if len(names) < len(carts.CART_BASENAMES):
         missed.append('file base names used: %d of %d' % (len(names), len(carts.CART_BASENAMES)))
